@@ -18,7 +18,7 @@ EXPLANATION = (
     "as such (R1's order is its necessary condition); re-initialisation of all global state on restart.")
 ASSUMPTIONS = ["util::yield_while(f) returns only when f() returned false", "PIKA_THROW_EXCEPTION does not return"]
 THOROUGH_CONFIGS = [["-UNDEBUG", "-DPIKA_DEBUG"]]
-FLOORS = {"C05.R1": 6, "C05.R2": 1, "C05.R3": 5, "C05.R4": 4, "C05.R5": 5, "C05.R6": 8, "C05.R7": 8, "C05.R8": 1}
+FLOORS = {"C05.R1": 6, "C05.R2": 2, "C05.R3": 5, "C05.R4": 4, "C05.R5": 5, "C05.R6": 8, "C05.R7": 8, "C05.R8": 1}
 
 
 def calls(fn, short=None, qual=None):
